@@ -5,6 +5,7 @@ package main
 
 import (
 	"bytes"
+	"encoding/json"
 	"fmt"
 	"math/big"
 	"reflect"
@@ -48,17 +49,24 @@ func (d dest) coq() string {
 
 type twin struct {
 	Kind  string       `json:"kind"`
-	Tx    txgen.TxSpec `json:"tx"`
+	Tx    interface{}  `json:"tx"` // txgen.TxSpec; run-length encoded outputs (compactTx) for the large transactions
 	Quote feegen.Quote `json:"quote"`
 	Dest  dest         `json:"dest"`
+	// the calls made earlier with the SAME quote object (and, where SameTx, on the same transaction object), in order
+	Before []histStep `json:"earlier_calls_with_this_quote_object,omitempty"`
 }
 
 func b2s(b bool) string { return common.CoqBool(b) }
 
+// handedIn: the destination script object of the last Change call (the caller's: it must read the same afterwards)
+var handedIn *bscript.Script
+
 func apply(tx *bt.Tx, fq *bt.FeeQuote, d dest) error {
+	handedIn = nil
 	switch d.Kind {
 	case "script":
-		return tx.Change(bscript.NewFromBytes(common.Unhex(d.Script)), fq)
+		handedIn = bscript.NewFromBytes(common.Unhex(d.Script))
+		return tx.Change(handedIn, fq)
 	case "address":
 		return tx.ChangeToAddress(d.Addr, fq)
 	}
@@ -67,6 +75,30 @@ func apply(tx *bt.Tx, fq *bt.FeeQuote, d dest) error {
 
 // feeWithChange: the quoted fee of the estimated size the transaction would have with the change output.
 func feeWithChange(s txgen.TxSpec, q feegen.Quote, d dest) (*big.Int, bool) {
+	if len(s.Outs) > 1000 {
+		// tens of thousands of outputs: asked twice for the same (transaction, quote, destination) - when the amounts are
+		// set and when the result is judged - and each answer costs a clone of the transaction
+		ks := compact(s) // the size does not depend on the amounts spent, nor on an unlocking script being nil or empty
+		ks.Ins = append([]txgen.InSpec{}, s.Ins...)
+		for i := range ks.Ins {
+			ks.Ins[i].Sats, ks.Ins[i].UnlockNil = 0, ks.Ins[i].Unlock == ""
+		}
+		kb, _ := json.Marshal([]interface{}{ks, q, d})
+		if v, ok := fwcMemo[string(kb)]; ok {
+			return v, true
+		}
+		v, ok := feeWithChangeRaw(s, q, d)
+		if ok {
+			fwcMemo[string(kb)] = v
+		}
+		return v, ok
+	}
+	return feeWithChangeRaw(s, q, d)
+}
+
+var fwcMemo = map[string]*big.Int{}
+
+func feeWithChangeRaw(s txgen.TxSpec, q feegen.Quote, d dest) (*big.Int, bool) {
 	s2 := s
 	if d.Kind != "existing" {
 		s2.Outs = append(append([]txgen.OutSpec{}, s.Outs...), txgen.OutSpec{Sats: 0, Script: d.Script})
@@ -81,12 +113,36 @@ func feeWithChange(s txgen.TxSpec, q feegen.Quote, d dest) (*big.Int, bool) {
 var histCount int
 
 func changeCase(kind string, s txgen.TxSpec, q feegen.Quote, d dest, hyp bool) {
-	tx := txgen.Build(s)
-	fq := q.Build()
+	changeCaseX(kind, s, q, d, hyp, opts{})
+}
+
+// opts: how a case differs from "a fresh transaction object, a fresh quote object, one call"
+type opts struct {
+	fq     *bt.FeeQuote // the caller's quote object, used before (a history); nil = a fresh one built from q
+	tx     *bt.Tx       // continue on this transaction object (s is then read from it); nil = built from s
+	before []histStep   // the earlier calls of the history (for the report)
+	big    bool         // tens of thousands of outputs: compact report, CChangeBig (clone-free evaluation of the model)
+	noCoq  bool         // Go-level predicates only (the case is still counted)
+	asIs   bool         // no detour through the extended format / earlier estimates
+}
+
+func changeCaseX(kind string, s txgen.TxSpec, q feegen.Quote, d dest, hyp bool, o opts) *bt.Tx {
+	var tx *bt.Tx
+	if o.tx != nil {
+		tx = o.tx
+		s = txgen.FromTx(tx)
+	} else {
+		tx = txgen.Build(s)
+	}
+	fq := o.fq
+	if fq == nil {
+		fq = q.Build()
+	}
+	quoteBefore := snapQuote(fq)
 	// every other well-formed case reaches the change operation the way a transaction reaches a wallet: decoded from
 	// the extended format (its unsigned inputs then carry an empty, non-nil unlocking script)
 	histCount++
-	if hyp && histCount%2 == 1 && len(s.Ins) > 0 {
+	if hyp && histCount%2 == 1 && len(s.Ins) > 0 && !o.asIs {
 		ok := true
 		for _, in := range s.Ins {
 			ok = ok && !in.PrevNil
@@ -101,7 +157,7 @@ func changeCase(kind string, s txgen.TxSpec, q feegen.Quote, d dest, hyp bool) {
 	// size and fee were estimated, then the script was put back (an in-place edit keeping the counts);
 	// the change operation must work on the transaction as it is now
 	histCount++
-	if histCount%3 == 0 && q.Complete() {
+	if histCount%3 == 0 && q.Complete() && !o.asIs {
 		common.Safely(func() {
 			if len(tx.Outputs) > 0 && histCount%2 == 0 {
 				o := tx.Outputs[len(tx.Outputs)-1]
@@ -122,10 +178,14 @@ func changeCase(kind string, s txgen.TxSpec, q feegen.Quote, d dest, hyp bool) {
 		})
 		kind += "/estimated-before-an-in-place-edit"
 	}
-	tw := twin{kind, s, q, d}
+	tw := twin{Kind: kind, Tx: s, Quote: q, Dest: d, Before: o.before}
+	if o.big {
+		tw.Tx = compact(s)
+	}
 	var err error
 	pan, _ := common.Safely(func() { err = apply(tx, fq, d) })
 	after := txgen.FromTx(tx)
+	quoteAfter := snapQuote(fq)
 	if after.Ins == nil {
 		after.Ins = []txgen.InSpec{}
 	}
@@ -140,6 +200,15 @@ func changeCase(kind string, s txgen.TxSpec, q feegen.Quote, d dest, hyp bool) {
 	}
 	if (err != nil || pan) && added {
 		c.Violate(site+"/error-modifies-tx", fmt.Sprintf("err %v panic %v", err, pan), tw)
+	}
+	// the quote and the destination script are the caller's: whatever the verdict they read the same afterwards.  (The
+	// fee predicates below are stated with q, the rates as they were HANDED IN - first to the first call of a history -
+	// never with what the live object says after a call.)
+	if diff := quoteBefore.diff(quoteAfter); diff != "" {
+		c.Violate(site+"/quote-modified", "the caller's fee quote reads differently after the call: "+diff, tw)
+	}
+	if handedIn != nil && common.Hex(*handedIn) != d.Script {
+		c.Violate(site+"/destination-script-modified", "the caller's destination script reads "+common.Hex(*handedIn)+" after the call", tw)
 	}
 	if pan && hyp {
 		c.Violate(site+"/panic", "the change operation panicked", tw)
@@ -229,8 +298,20 @@ func changeCase(kind string, s txgen.TxSpec, q feegen.Quote, d dest, hyp bool) {
 			resObs = "(OErr ErrBadAddress)" // the address itself does not decode
 		}
 	}
-	coq := fmt.Sprintf("CChange %s %s %s %s %s %s %d %d %s %s", feegen.CoqTx(s), q.Coq(), d.coq(), b2s(hyp),
-		resObs, outsCoq(outs), tin, tout, est, feegen.Obs(p3, enoughErr, b2s(enough)))
+	coq, key := "", ""
+	if !o.noCoq {
+		cons := "CChange"
+		if o.big {
+			cons = "CChangeBig"
+			c.Weigh(c.ShardBytes) // a shard of its own: the model serialises megabytes
+		}
+		key = feegen.CoqTx(s)
+		coq = fmt.Sprintf("%s %s %s %s %s %s %s %d %d %s %s %s", cons, key, q.Coq(), d.coq(), b2s(hyp),
+			resObs, outsCoq(outs), tin, tout, est, feegen.Obs(p3, enoughErr, b2s(enough)), quoteAfter.spec().Coq())
+	} else {
+		kb, _ := json.Marshal(tw.Tx)
+		key = string(kb)
+	}
 	verdict := "no-change"
 	if pan {
 		verdict = "panic"
@@ -240,7 +321,8 @@ func changeCase(kind string, s txgen.TxSpec, q feegen.Quote, d dest, hyp bool) {
 		verdict = "added"
 	}
 	c.Tally(fmt.Sprintf("%s/%s/outs=%d/%s", d.Kind, kind, bucket(len(s.Outs)), verdict))
-	c.Case(coq, tw, feegen.CoqTx(s)+q.Key()+d.coq(), len(s.Ins) > 0)
+	c.Case(coq, tw, key+q.Key()+d.coq(), len(s.Ins) > 0)
+	return tx
 }
 
 func insOf(s txgen.TxSpec) []txgen.InSpec {
@@ -259,6 +341,9 @@ func outsCoq(outs []txgen.OutSpec) string { return feegen.CoqOuts(outs) }
 func bucket(n int) int {
 	if n > 3 && n < 251 {
 		return 4
+	}
+	if n > 254 && n < 65534 {
+		return 255
 	}
 	return n
 }
@@ -374,6 +459,7 @@ func main() {
 		q    feegen.Quote
 		d    dest
 		hyp  bool
+		run  func() // a job that is more than one call (a history), or takes options
 	}
 	var jobs []job
 	// the grid: output counts x quotes x destinations x amount relations
@@ -412,7 +498,7 @@ func main() {
 						if dataOuts {
 							kind = "grid-data/" + name
 						}
-						jobs = append(jobs, job{kind, s, q, d, true})
+						jobs = append(jobs, job{kind, s, q, d, true, nil})
 					}
 				}
 			}
@@ -464,7 +550,7 @@ func main() {
 				kind, hyp = "total-out-wrap", false
 			}
 		}
-		jobs = append(jobs, job{kind, s, q, d, hyp})
+		jobs = append(jobs, job{kind, s, q, d, hyp, nil})
 	}
 	// rates that are not a whole number of satoshis per byte nor a power-of-two fraction (1/49, 31/113, 59/42 ...):
 	// bytes x satoshis / bytes-unit is an exact integer for some sizes and any detour through a rounded per-byte rate
@@ -484,19 +570,26 @@ func main() {
 						s := base
 						s.Ins = append([]txgen.InSpec{}, base.Ins...)
 						name := setAmounts(&s, q, d, rel, r)
-						jobs = append(jobs, job{"odd-rate/" + name, s, q, d, true})
+						jobs = append(jobs, job{"odd-rate/" + name, s, q, d, true, nil})
 					}
 				}
 			}
 		}
+	}
+	for _, f := range moreFamilies(r, thorough) {
+		jobs = append(jobs, job{run: f})
 	}
 	for i := len(jobs) - 1; i > 0; i-- {
 		j := r.Intn(i + 1)
 		jobs[i], jobs[j] = jobs[j], jobs[i]
 	}
 	for _, j := range jobs {
+		if j.run != nil {
+			j.run()
+			continue
+		}
 		changeCase(j.kind, j.s, j.q, j.d, j.hyp)
 	}
-	c.Stats.Rule = "grid: output counts {0,1,2,251,252,253,254} (identical P2PKH or data outputs; a mixed data/P2PKH pair for the small counts) x 9 quotes (1/20, 1/2, 1, 5, 50 sat/byte, unequal std/data) x 1..3 P2PKH inputs (some already signed) x destinations {address, P2PKH script, 1-byte, 200-byte, 252..300-byte, data script, existing index} x amount relations {insufficient, fee-1, =fee, fee+dust, fee+dust+1, ample, ample with a remainder of 2^63 and more} computed from the fee a change output would require (quick tier: at 252 and 253 outputs every quote x destination at fee+dust+1 (a 2-satoshi change output) and a third of them also at fee+dust (no change), at 251 and 254 a rotating third of the destinations; thorough: the full grid); plus bad address, index out of range / wrapping negative, nil or unsupported previous script, missing fee type, zero denominator, wrapping fee products and totals. every third case on a transaction object whose size and fee were estimated while one of its scripts had another size (in-place edit, counts unchanged). distinct = distinct (tx, quote, destination); non-trivial = at least one input"
+	c.Stats.Rule = "grid: output counts {0,1,2,251,252,253,254} (identical P2PKH or data outputs; a mixed data/P2PKH pair for the small counts) x 9 quotes (1/20, 1/2, 1, 5, 50 sat/byte, unequal std/data) x 1..3 P2PKH inputs (some already signed) x destinations {address, P2PKH script, 1-byte, 200-byte, 252..300-byte, data script, existing index} x amount relations {insufficient, fee-1, =fee, fee+dust, fee+dust+1, ample, ample with a remainder of 2^63 and more} computed from the fee a change output would require (quick tier: at 252 and 253 outputs every quote x destination at fee+dust+1 (a 2-satoshi change output) and a third of them also at fee+dust (no change), at 251 and 254 a rotating third of the destinations; thorough: the full grid); plus bad address, index out of range / wrapping negative, nil or unsupported previous script, missing fee type, zero denominator, wrapping fee products and totals. every third case on a transaction object whose size and fee were estimated while one of its scripts had another size (in-place edit, counts unchanged). zero-rate: 5 quotes with a numerator 0 (data bytes free / only data bytes paid for / everything free) x transactions most of whose bytes are data bytes (300..2000-byte data outputs) x destinations (also a large data script) x {fee+dust, fee+dust+1, ample}. history: 36 (thorough 800) sequences of 3..4 change operations with ONE quote object (14 quotes incl. the zero-rate ones) over different transactions and, for a third of the steps, again on the transaction object the previous call left - every call judged by the rates as first handed in. tight: destination script lengths at which (std bytes x sat) mod unit < sat, so that one byte missing from the size is one satoshi missing from the fee at every rate, at 1 and 252 existing outputs. big: 65534 / 65535 / 65536 identical existing outputs (second boundary of the output-count varint) x 9 quotes x {tight script, P2PKH script, address, existing index} x {fee+dust, fee+dust+1, ample}: quick tier 19 of them (all 9 quotes at 65535 with a tight destination and a 2-satoshi change output), 6 also evaluated on the model without the serialise-and-reparse of Clone (CChangeBig, proofs/ChangeDirect.v), the others as Go-level predicates over the integers. On every case: the caller's quote object (both fee units of both fee types, labels, expiry) and destination script read the same after the call, and the quote the object states afterwards is an observable of the correspondence. distinct = distinct (tx, quote, destination); non-trivial = at least one input"
 	c.Finish()
 }
